@@ -141,15 +141,33 @@ def correspond(ctx, corr):
         d = (sa << 17) | (1 << 15) | (inum << 10) | info
         # the first decode happens without a map, with an empty map, or with a map that has other entries
         first = rng.choice([None, {}, {((sa + 1) % 64, inum): 1}, {(sa, (inum + 1) % 32): 4, ((sa + 7) % 64, inum): 3}])
-        amb = command.from_frame(ForwardFrame(24, d),
-                                 dev_inst_map=None if first is None else DeviceInstanceTypeMapper(dict(first)))
+        first_mp = None if first is None else DeviceInstanceTypeMapper(dict(first))
+        the_frame = ForwardFrame(24, d)
+        amb = command.from_frame(the_frame, dev_inst_map=first_mp)
         if not isinstance(amb, dg.AmbiguousInstanceType):
             corr.violate("event:ambiguous", "dec 24 %d 0 -" % d, "AmbiguousInstanceType", cc.clsname(amb))
             continue
         m = {(sa, inum): rng.choice(types_)} if rng.random() < 0.7 else {((sa + 1) % 64, inum): 1}
-        mp = DeviceInstanceTypeMapper(dict(m))
-        r = amb.retry_decode(mp)
-        direct = command.from_frame(ForwardFrame(24, d), dev_inst_map=mp)
+        if first_mp is not None and rng.random() < 0.5:
+            # one mapper object per bus: the SAME mapper that did not know the instance a moment ago has learned
+            # it in the meantime, and the SAME frame object is decoded again
+            mp = first_mp
+            for (sa_, in_), t_ in m.items():
+                mp.add_type(short_address=sa_, instance_number=in_, instance_type=t_)
+            merged = dict(first)
+            merged.update(m)
+            m = merged
+            r = amb.retry_decode(mp)
+            direct = command.from_frame(the_frame, dev_inst_map=mp)
+            fresh = command.from_frame(ForwardFrame(24, d), dev_inst_map=DeviceInstanceTypeMapper(dict(m)))
+            if obs_of(direct) != obs_of(fresh) or type(direct) is not type(fresh):
+                corr.violate("event:map-learned", "dec 24 %d with a mapper that learned %s after a first decode" % (
+                    d, cc.map_tok(m)), obs_of(fresh), obs_of(direct),
+                    "decoding must follow the map's present contents")
+        else:
+            mp = DeviceInstanceTypeMapper(dict(m))
+            r = amb.retry_decode(mp)
+            direct = command.from_frame(ForwardFrame(24, d), dev_inst_map=mp)
         ans = "none" if r is None else cc.cmd_canon(lambda: r)
         want = "none" if isinstance(direct, dg.AmbiguousInstanceType) else cc.cmd_canon(lambda: direct)
         if ans != want:
